@@ -169,6 +169,57 @@ theorem step_reqsF (cfg : Cfg) (lb : St) (op : Op) :
   rw [newReqs_append, newReqs_append, newReqs_filter_ne, newReqs_filter_eq, List.append_nil,
     ← List.append_assoc, ← a1, ← f1, q.2]
 
+/-! ### requests that timed out while they waited for the open result
+
+  `flush` drops them (C12's gate clause, Proofs/LBGate.lean), so on a history of the model no dispatch is
+  entered as completed: the table the judges rebuild (`newReqsQ`) is `newReqs` of the results. -/
+
+theorem lateReqs_of_dropOk : ∀ (q : List (Option Bool)) (rs : List ResV), dropOk q rs = true →
+    lateReqs q rs = newReqs rs
+  | [], rs, _ => by unfold lateReqs; rfl
+  | _ :: _, [], _ => by unfold lateReqs; rfl
+  | e :: q, r :: rs, h => by
+    simp only [dropOk, Bool.and_eq_true, Bool.or_eq_true, decide_eq_true_eq] at h
+    have ih := lateReqs_of_dropOk q rs h.2
+    unfold lateReqs
+    rw [ih]
+    have hc : newReqs (r :: rs) = newReqs [r] ++ newReqs rs := newReqs_append [r] rs
+    rw [hc]
+    congr 1
+    rcases h.1 with hl | hd
+    · cases r <;> simp [newReqs, hl]
+    · subst hd; rfl
+
+theorem newReqsQ_of_gate (idx : Nat) (q : List (Option Bool)) (o : Obs) (h : gateAt 1 idx q o = .ok) :
+    newReqsQ q o = newReqs o.res := by
+  unfold newReqsQ
+  by_cases hc : (o.queued == 0 && !q.isEmpty) = true
+  · rw [if_pos hc]
+    unfold gateAt at h
+    rw [if_pos hc] at h
+    have hd : dropOk q o.flushed = true := by
+      cases hd : dropOk q o.flushed with
+      | true => rfl
+      | false => simp [hd] at h
+    rw [lateReqs_of_dropOk _ _ hd]
+    exact newReqs_filter_ne o.res
+  · rw [if_neg hc]
+
+/-- one operation of the model, as the judges see it: the waiting requests they rebuild are the model's, and
+    no dispatch of the observation is entered as completed -/
+theorem step_queue (cfg : Cfg) (lb : St) (op : Op) (hg : GInv lb) :
+    GInv (stepSt cfg lb op).1 ∧
+    newReqsQ (gateArrive lb.queued op (step cfg lb op).2) (step cfg lb op).2 = newReqs (stepSt cfg lb op).2 ∧
+    gateNext (gateArrive lb.queued op (step cfg lb op).2) (step cfg lb op).2 = (stepSt cfg lb op).1.queued := by
+  obtain ⟨g1, g2, g3⟩ := gate_step cfg lb op 1 0 hg
+  exact ⟨g1, newReqsQ_of_gate 0 _ _ g2, g3⟩
+
+theorem lateIds_newReqs (rs : List ResV) : lateIds (newReqs rs) = [] := by
+  unfold lateIds newReqs
+  induction rs with
+  | nil => rfl
+  | cons r rs ih => cases r <;> simpa using ih
+
 theorem reqsPut_length (reqs : List (Nat × Bool)) (op : Op) : (reqsPut reqs op).length = reqs.length := by
   unfold reqsPut
   cases op <;> try rfl
@@ -567,6 +618,7 @@ theorem chanOf_cons (a3 : A3) (nid st id : Nat) :
     simp [this, e]
 
 theorem sim_step (cfg : Cfg) (lb : St) (op : Op) (a3 : A3) (sim : Sim3 a3 lb.sub.hs)
+    (hq : a3.q = lb.queued) (hg : GInv lb)
     (hw : WF (stepSt cfg lb op).1.sub.hs)
     (hc : ∃ k, chans (stepSt cfg lb op).1.sub.hs = chansAct (chans lb.sub.hs) op ++ List.replicate k 1) :
     Sim3 (a3.after op (step cfg lb op).2) (stepSt cfg lb op).1.sub.hs := by
@@ -593,13 +645,13 @@ theorem sim_step (cfg : Cfg) (lb : St) (op : Op) (a3 : A3) (sim : Sim3 a3 lb.sub
       by_cases hm : id ∈ st.sub.hs.heap
       · exact Or.inl hm
       · exact Or.inr ⟨hl, by simpa using hm⟩
-  · show reqsPut a3.reqs op ++ newReqs (step cfg lb op).2.res = _
-    rw [sim.reqs]
+  · show reqsPut a3.reqs op ++ newReqsQ (gateArrive a3.q op (step cfg lb op).2) (step cfg lb op).2 = _
+    rw [sim.reqs, hq, (step_queue cfg lb op hg).2.1]
     exact (step_reqsF cfg lb op).symm
   · intro id
     obtain ⟨k, e⟩ := hc
     rw [e, getD_ext]
-    show ({ heap := _, known := _, reqs := _, chans := chansAfter a3 op } : A3).chanOf id = _
+    show ({ heap := _, known := _, reqs := _, chans := chansAfter a3 op, q := _ } : A3).chanOf id = _
     cases op with
     | chan nid s =>
       simp only [chansAfter, chansAct]
@@ -629,16 +681,22 @@ theorem sim_step (cfg : Cfg) (lb : St) (op : Op) (a3 : A3) (sim : Sim3 a3 lb.sub
         exact sim.chan id
     | _ => exact sim.chan id
 
+theorem after_q (cfg : Cfg) (lb : St) (op : Op) (a3 : A3) (hq : a3.q = lb.queued) (hg : GInv lb) :
+    (a3.after op (step cfg lb op).2).q = (stepSt cfg lb op).1.queued := by
+  show gateNext (gateArrive a3.q op (step cfg lb op).2) (step cfg lb op).2 = _
+  rw [hq]
+  exact (step_queue cfg lb op hg).2.2
+
 /-! ### every history of the model satisfies `specC03A` -/
 
 theorem specC03A_trace (cfg : Cfg) (ops : List Op) : ∀ (p : Proto) (lb : St) (a3 : A3) (idx : Nat),
-    RInv cfg p lb → HInv lb.sub.hs → Sim3 a3 lb.sub.hs → protoOk p ops = true →
+    RInv cfg p lb → HInv lb.sub.hs → Sim3 a3 lb.sub.hs → a3.q = lb.queued → GInv lb → protoOk p ops = true →
     (runSt cfg lb ops).sub.hs.reqs.length < maxReqs →
     specC03AGo a3 idx (comp3A.trace cfg lb ops) = .ok := by
   induction ops with
-  | nil => intro p lb a3 idx _ _ _ _ _; rfl
+  | nil => intro p lb a3 idx _ _ _ _ _ _ _; rfl
   | cons op ops ih =>
-    intro p lb a3 idx h hi sim hp hb
+    intro p lb a3 idx h hi sim hq hg hp hb
     simp only [protoOk] at hp
     cases hps : protoStep p op with
     | none => rw [hps] at hp; cases hp
@@ -655,12 +713,12 @@ theorem specC03A_trace (cfg : Cfg) (ops : List Op) : ∀ (p : Proto) (lb : St) (
         lt_of_le_of_lt (run_reqs_mono cfg ops _) hb
       obtain ⟨i1, c1⟩ := step_keep cfg lb op h.full h.pre hload hi hb1
       have v1 := c03Step_ok cfg lb op h.full hi hb1 a3 idx sim
-      have s1 := sim_step cfg lb op a3 sim i1.wf c1
+      have s1 := sim_step cfg lb op a3 sim hq hg i1.wf c1
       simp only [TComp.trace]
       show specC03AGo a3 idx ((op, (step cfg lb op).2) :: comp3A.trace cfg (step cfg lb op).1 ops) = .ok
       simp only [specC03AGo]
       rw [v1, Verdict.ok_and]
-      exact ih p' _ _ (idx + 1) h' i1 s1 hp hb
+      exact ih p' _ _ (idx + 1) h' i1 s1 (after_q cfg lb op a3 hq hg) (step_queue cfg lb op hg).1 hp hb
 
 theorem run_HInv (cfg : Cfg) (ops : List Op) : ∀ (p : Proto) (lb : St), RInv cfg p lb → HInv lb.sub.hs →
     protoOk p ops = true → (runSt cfg lb ops).sub.hs.reqs.length < maxReqs →
@@ -727,8 +785,8 @@ theorem c04View_ok {s : HS} (h : HInv s) (a : AS) (ha : a.hs = s) (id : Nat) (hl
     unfold outOf
     simp
 
-theorem c04AAt_ok (lb : St) (res : List ResV) (h : HInv lb.sub.hs) (idx : Nat) :
-    c04AAt lb.sub.hs.reqs idx (obsOf lb res) = .ok := by
+theorem c04AAt_ok (lb : St) (res : List ResV) (h : HInv lb.sub.hs) (late : List Nat) (idx : Nat) :
+    c04AAt late lb.sub.hs.reqs idx (obsOf lb res) = .ok := by
   unfold c04AAt
   have h1 : (obsOf lb res).heap.find? (fun v => !c04View lb.sub.hs.reqs true v) = none := by
     rw [List.find?_eq_none]
@@ -756,13 +814,13 @@ theorem c04AAt_ok (lb : St) (res : List ResV) (h : HInv lb.sub.hs) (idx : Nat) :
   rw [h2]
 
 theorem specC04A_trace (cfg : Cfg) (ops : List Op) : ∀ (p : Proto) (lb : St) (idx : Nat),
-    RInv cfg p lb → HInv lb.sub.hs → protoOk p ops = true →
+    RInv cfg p lb → HInv lb.sub.hs → GInv lb → protoOk p ops = true →
     (runSt cfg lb ops).sub.hs.reqs.length < maxReqs →
-    specC04AGo lb.sub.hs.reqs idx (comp4A.trace cfg lb ops) = .ok := by
+    specC04AGo lb.sub.hs.reqs lb.queued idx (comp4A.trace cfg lb ops) = .ok := by
   induction ops with
-  | nil => intro p lb idx _ _ _ _; rfl
+  | nil => intro p lb idx _ _ _ _ _; rfl
   | cons op ops ih =>
-    intro p lb idx h hi hp hb
+    intro p lb idx h hi hg hp hb
     simp only [protoOk] at hp
     cases hps : protoStep p op with
     | none => rw [hps] at hp; cases hp
@@ -779,14 +837,18 @@ theorem specC04A_trace (cfg : Cfg) (ops : List Op) : ∀ (p : Proto) (lb : St) (
         lt_of_le_of_lt (run_reqs_mono cfg ops _) hb
       obtain ⟨i1, _⟩ := step_keep cfg lb op h.full h.pre hload hi hb1
       simp only [TComp.trace]
-      show specC04AGo lb.sub.hs.reqs idx ((op, (step cfg lb op).2) :: comp4A.trace cfg (step cfg lb op).1 ops) = .ok
+      show specC04AGo lb.sub.hs.reqs lb.queued idx
+        ((op, (step cfg lb op).2) :: comp4A.trace cfg (step cfg lb op).1 ops) = .ok
       simp only [specC04AGo]
-      have hr : reqsPut lb.sub.hs.reqs op ++ newReqs (step cfg lb op).2.res = (stepSt cfg lb op).1.sub.hs.reqs :=
+      obtain ⟨g1, g2, g3⟩ := step_queue cfg lb op hg
+      rw [g2, g3]
+      have hr : reqsPut lb.sub.hs.reqs op ++ newReqs (stepSt cfg lb op).2 = (stepSt cfg lb op).1.sub.hs.reqs :=
         (step_reqsF cfg lb op).symm
       rw [hr]
-      have hv : c04AAt (stepSt cfg lb op).1.sub.hs.reqs idx (step cfg lb op).2 = .ok :=
-        c04AAt_ok (stepSt cfg lb op).1 (stepSt cfg lb op).2 i1 idx
+      have hv : c04AAt (lateIds (newReqs (stepSt cfg lb op).2)) (stepSt cfg lb op).1.sub.hs.reqs idx
+          (step cfg lb op).2 = .ok :=
+        c04AAt_ok (stepSt cfg lb op).1 (stepSt cfg lb op).2 i1 _ idx
       rw [hv, Verdict.ok_and]
-      exact ih p' _ (idx + 1) h' i1 hp hb
+      exact ih p' _ (idx + 1) h' i1 g1 hp hb
 
 end Scales.LB
